@@ -147,6 +147,10 @@ func VP_C01_Layout() {
 	n := vpCase("n")
 	data := vpBytes("d", n)
 	vpAssume(data[0] == '>')
+	// optional split of the same search over several workers
+	if sl := vpCaseOr("slice", -1); sl >= 0 && n > 1 {
+		vpAssume(int(data[1]>>4) == sl)
+	}
 	for i := range data {
 		if i+1 < n {
 			vpAssume(data[i] != '\r' || data[i+1] == '\n')
